@@ -15,7 +15,7 @@ def _ident_job(k):
     """Defining identities on one concrete scenario: L, D are the components of the summed panel
     forces normal to / along the free stream; aircraft CL, CD are the S_ref-weighted combination."""
     rng = np.random.default_rng(seed() * 31 + k)
-    cls = dict(span=["full", "half"][k % 2], side=["F", "L", "F", "R"][k % 4], ground=False, rot=False, nsurf=1 + (k // 2) % 2, symflow=(k % 2 == 1) or (k % 3 == 0), compressible=False)
+    cls = dict(span=["full", "half"][k % 2], side=["F", "L", "F", "R"][k % 4], ground=False, rot=False, nsurf=1 + (k // 2) % 2, symflow=(k % 3 == 0), compressible=False)
     sc = laws.base_scenario(cls, rng, k)
     for s in sc.surfs:
         s["visc"] = False
@@ -50,7 +50,7 @@ def _ident_job(k):
 def run(tier, only=None):
     R = Run("C06", tier, "model_checking")
     depth = 2 if tier == "quick" else 3
-    behs, types = lawcheck.behaviours(R, ["ScaleRho", "ScaleV", "ScaleLen", "Translate"], lawcheck.ALL_BASE, depth)
+    behs, types = lawcheck.behaviours(R, ["ScaleRho", "ScaleV", "ScaleLen", "Translate", "Reorder", "Reexpress"], lawcheck.ALL_BASE, depth)
     lawcheck.replay_all(R, "C06", behs, limit=400 if tier == "quick" else 4000)
     res = check_exc(pmap(_ident_job, range(16 if tier == "quick" else 96)))
     for k, cls, bad in res:
